@@ -594,6 +594,10 @@ func genLink(r *gen.R, p engProfile, first, prevDet bool, ruleIDs []int) (eLink,
 	if p.cache > 0 && len(curTfBase) > 0 && r.Chance(0.6) {
 		// rules of one case share prefixes of one transformation list (the cache stores per prefix)
 		l.Tfs = append([]string{}, curTfBase[:1+r.Intn(len(curTfBase))]...)
+		if r.Chance(0.4) {
+			// a sibling chain: the shared prefix followed by a different step
+			l.Tfs = append(l.Tfs, eTfs[r.Intn(len(eTfs))])
+		}
 		ntf = len(l.Tfs)
 	}
 	l.MM = ntf > 0 && r.Chance(0.25)
@@ -799,7 +803,7 @@ var cacheTrioName, cacheTrioVar string
 func genEngCase(r *gen.R, p engProfile) *eCase {
 	curTfBase = nil
 	if p.cache > 0 {
-		n := 2 + r.Intn(2)
+		n := 2 + r.Intn(4) // shared prefixes of length 1..5
 		for i := 0; i < n; i++ {
 			t := eTfs[r.Intn(len(eTfs))]
 			if i == 0 && r.Chance(0.6) {
@@ -908,6 +912,37 @@ func genEngCase(r *gen.R, p engProfile) *eCase {
 		pos := r.Intn(len(c.Rules) + 1)
 		c.Rules = append(c.Rules[:pos], append(trio, c.Rules[pos:]...)...)
 		cacheTrioName, cacheTrioVar = n, v
+	} else if p.cache > 0 && r.Chance(0.4) {
+		// sibling chains: two or three rules of one phase reading the same target, not multiMatch, whose
+		// transformation lists share a prefix of length 1..8 and differ in the step after it (and one that
+		// extends a sibling); the prefix lengths include those at which a Go slice has spare capacity
+		// (3, 5, 6, 7), so per-chain bookkeeping that is shared between chains is exercised
+		cacheTrioName = ""
+		v := r.Pick("ARGS", "ARGS_GET", "ARGS_GET", "REQUEST_HEADERS")
+		key := r.Pick("-", gen.Field("a"), gen.Field("b"))
+		ph := 1 + r.Intn(2)
+		pre := []string{}
+		for k := []int{1, 2, 3, 3, 3, 4, 5, 5, 6, 6, 7, 7, 8}[r.Intn(13)]; k > 0; k-- {
+			pre = append(pre, r.Pick("trim", "removeNulls", "urlDecode", "trimLeft", "trimRight", "replaceNulls", "lowercase", "uppercase", "removeWhitespace", "compressWhitespace"))
+		}
+		last := []string{"lowercase", "uppercase", "length", "hexEncode", "urlEncode", "urlDecode", "removeWhitespace", "trim"}
+		r.Shuffle(len(last), func(i, j int) { last[i], last[j] = last[j], last[i] })
+		mk := func(id int, tfs []string) eRule {
+			return eRule{ID: id, Ph: ph, Mk: "-", Rt: "-", Sa: "-", Sev: -1, Tags: []string{}, Log: true, Audit: true,
+				Links: []eLink{{Tg: []eTarget{{V: v, K: key, X: []string{}}}, Op: &eOp{N: r.Pick("contains", "contains", "streq", "beginsWith"),
+					A: gen.Field(r.Pick("x", "X", "78", "58", "1", "2", "%", "25"))}, Tfs: tfs, NA: []eNAct{}}}}
+		}
+		chain := func(extra ...string) []string { return append(append([]string{}, pre...), extra...) }
+		sib := []eRule{mk(1, chain(last[0])), mk(2, chain(last[1]))}
+		if r.Chance(0.5) {
+			sib = append(sib, mk(3, chain(last[r.Intn(2)], last[2])))
+		}
+		if r.Chance(0.3) {
+			sib = append(sib, mk(4, chain(last[0])))
+		}
+		r.Shuffle(len(sib), func(i, j int) { sib[i], sib[j] = sib[j], sib[i] })
+		pos := r.Intn(len(c.Rules) + 1)
+		c.Rules = append(c.Rules[:pos], append(sib, c.Rules[pos:]...)...)
 	} else {
 		cacheTrioName = ""
 	}
@@ -942,6 +977,52 @@ func genEngCase(r *gen.R, p engProfile) *eCase {
 			g := eRule{ID: 6, Ph: 1, Mk: "-", Rt: "-", Sa: "-", Sev: -1, Tags: []string{}, Links: []eLink{l}}
 			c.Rules = append([]eRule{g}, c.Rules...)
 		}
+	}
+	if p.flow >= 0.3 && r.Chance(0.3) {
+		// a skipAfter scenario in one phase: a rule before the jump, the jumping rule, a rule that is jumped over,
+		// the marker (sometimes absent or duplicated), and two rules after it that leave a trace; the rule list
+		// is often edited at configuration time afterwards (a removal of a rule placed before / after the marker),
+		// so the positions of the rules of the final list differ from the positions at the time each was added
+		ph := 1 + r.Intn(2)
+		m := r.Pick("M1", "M2", "M3")
+		mk := func(id int, key string, disr string, sa string) eRule {
+			ru := eRule{ID: id, Ph: ph, Mk: "-", Rt: "-", Sa: sa, Sev: -1, Tags: []string{}, Log: true, Audit: true, Disr: disr,
+				Links: []eLink{{Tg: []eTarget{}, Tfs: []string{}, NA: []eNAct{{N: "setvar", K: gen.Field(key), V: gen.Field("+1")}}}}}
+			if r.Chance(0.3) {
+				ru.Tags = append(ru.Tags, gen.Field(r.Pick("t1", "t2")))
+			}
+			return ru
+		}
+		marker := eRule{ID: 0, Ph: 0, Mk: gen.Field(m), Links: []eLink{{Tg: []eTarget{}, Tfs: []string{}, NA: []eNAct{}}}, Rt: "-", Sa: "-", Sev: -1, Tags: []string{}}
+		blk := []eRule{mk(1, "s", "", "-")}
+		if r.Chance(0.3) {
+			blk[0].Ph = 1 + r.Intn(5)
+		}
+		blk = append(blk, mk(2, "n", "", gen.Field(m)), mk(3, "k", r.Pick("", "deny"), "-"))
+		if r.Chance(0.85) {
+			blk = append(blk, marker)
+		}
+		blk = append(blk, mk(4, "S", "", "-"), mk(7, "N", r.Pick("", "", "deny"), "-"))
+		if r.Chance(0.15) {
+			blk = append(blk, marker, mk(8, "n", "", "-"))
+		}
+		pos := r.Intn(len(c.Rules) + 1)
+		c.Rules = append(c.Rules[:pos], append(blk, c.Rules[pos:]...)...)
+		if r.Chance(0.6) {
+			d := eRule{Rt: "-", Sa: "-", Mk: "-", Sev: -1, Tags: []string{}, Links: []eLink{}, Dir: "removeById"}
+			switch r.Intn(4) {
+			case 0:
+				d.Sels = [][]int{{1}}
+			case 1:
+				d.Sels = [][]int{{3}}
+			case 2:
+				d.Sels = [][]int{{1}, {3}, {4}}
+			default:
+				d.Sels = [][]int{{[]int{1, 3, 4, 7, 10, 20}[r.Intn(6)]}}
+			}
+			c.Rules = append(c.Rules, d)
+		}
+		ids = append(ids, 1, 2, 3, 4, 7)
 	}
 	if p.dirs > 0 && r.Chance(p.dirs) {
 		// configuration-time exclusions/updates, each placed after at least one rule (a directive
@@ -1004,7 +1085,7 @@ func genEngCase(r *gen.R, p engProfile) *eCase {
 
 var engProfiles = map[string]engProfile{
 	"":      {},
-	"flow":  {flow: 0.3, chains: 0.1, disr: 0.1, allows: 0.2},
+	"flow":  {flow: 0.3, chains: 0.1, disr: 0.1, allows: 0.2, dirs: 0.3},
 	"api":   {disr: 0.35, apiOrder: 0.35, ctl: 0.1, modeSwitch: 0.2},
 	"acct":  {acct: 0.4, chains: 0.2},
 	"ctl":   {ctl: 0.35, rxkeys: 0.15, dirs: 0.45, flow: 0.15},
